@@ -32,16 +32,22 @@ impl IrValue {
         use IrValue::*;
         match self {
             Native(x) => {
-                let bytes = x.to_bytes_le();
-                if n as u32 > F::NUM_BITS.div_ceil(8) || bytes[n..].iter().any(|&b| b != 0) {
+                let mut bytes = x.to_bytes_le().to_vec();
+                if bytes.iter().skip(n).any(|&b| b != 0) {
                     Err(Error::Other(format!("cannot convert {x} to Bytes({n})")))
                 } else {
-                    Ok(bytes[..n].to_vec().into())
+                    // (padded with zeros when n exceeds the size of a field element)
+                    bytes.resize(n, 0);
+                    Ok(bytes.into())
                 }
             }
 
             BigUint(big) => {
-                let bytes = big.to_bytes_le();
+                let bytes = if big == num_bigint::BigUint::ZERO {
+                    vec![]
+                } else {
+                    big.to_bytes_le()
+                };
                 if bytes.len() > n {
                     Err(Error::Other(format!("cannot convert {big} to Bytes({n})")))
                 } else {
@@ -87,15 +93,20 @@ pub fn into_bytes_incircuit(
     use CircuitValue::*;
     match input {
         Native(x) => {
-            let bytes = std_lib.assigned_to_le_bytes(layouter, x, Some(n))?;
+            // A field element fits in `max_bytes` bytes: further bytes are zero.
+            let max_bytes = F::NUM_BITS.div_ceil(8) as usize;
+            let mut bytes = std_lib.assigned_to_le_bytes(layouter, x, Some(n.min(max_bytes)))?;
+            if n > max_bytes {
+                let zero = std_lib.assign_fixed(layouter, 0u8)?;
+                bytes.resize(n, zero);
+            }
             Ok(bytes.to_vec().into())
         }
 
         BigUint(big) => {
             let mut bytes = std_lib.biguint().to_le_bytes(layouter, big)?;
 
-            bytes[n..]
-                .iter()
+            (bytes.iter().skip(n))
                 .try_for_each(|b| std_lib.assert_equal_to_fixed(layouter, b, 0u8))?;
 
             let zero = std_lib.assign_fixed(layouter, 0u8)?;
